@@ -111,6 +111,14 @@ CHECKS = {
              "and the reference action.",
         technique="TLA+ rotation action + contract; TLC exhaustive shapes x nodes; TLC trace validation of before/after heaps",
         ref="5/C15"),
+    "C17": dict(
+        text="Problems.tla states the generator contract over the returned text: derivable by the reference grammar (Grammar.tla), positive complexity, the promised like pair "
+             "among the top-level addends with the promised number of blockers between them; helpers: distinct variables disjoint from exclusions, splits that sum. The random "
+             "source is modelled as a sequence of draws whose first K are forced to the lowest/middle/highest admissible value (every prefix) followed by a seeded tail. Every "
+             "generator over its parameter grid (incl. default ranges), both number modes, seeds and forced prefixes is run by the real code and each output is validated by TLC.",
+        technique="TLA+ generator contract over the reference grammar and term keys; forced-draw prefixes of the random source; TLC trace validation of generator outputs",
+        ref="5/C17",
+        note=TB + " The for-all over seeds is explored (seeds x forced draw prefixes), not exhausted."),
     "C18": dict(
         text="Layout.tla states the tidy-tree invariants over a heap and exact (scaled dyadic) coordinates. Every shape up to the bound, as plain and as expression-shaped "
              "nodes, under three unit-multiplier pairs, is laid out by the real TreeLayout (first call, second call on the same nodes, fresh mirrored tree) and TLC validates "
